@@ -445,6 +445,8 @@ func runC02(env *Env) error {
 		`{"state":"authenticating","scheme":"plain","authentication":{"password":"cA=="}}`,
 		`{"state":"authenticating","scheme":"bogus","authentication":{}}`,
 		`{"state":"authenticating","authentication":{}}`,
+		// the shape of the server's own round-trip request (sendAuthenticatingRoundTripSession): authentication, no scheme
+		`{"state":"authenticating","id":"s1","from":"postmaster@verif.test/srv","authentication":{"password":"cnQz"}}`,
 		`{"state":"authenticating","scheme":"guest","authentication":"x"}`,
 		`{"state":"failed","reason":{"code":1.5}}`, `{"state":"failed","reason":{"code":9223372036854775808}}`,
 		`{"state":"failed","reason":{"code":-9223372036854775808,"description":null}}`,
